@@ -19,7 +19,7 @@ RULE = ("generated productive grammars with and without refined fields x {GE, SG
         "create / mutate / crossover x histories of 2..4 mapping calls interleaved with other draws on the shared source; "
         "non-trivial = the mapped program has >= 2 nodes; distinct = distinct (spec, representation, genotype)")
 ASSUMPTIONS = [
-    "the stack machine (create_tree_using_stacks) is not modelled in Lean: its purity is established on the implementation's outputs only",
+    "the stack machine is modelled for unweighted grammars; the canonical symbol order (sorted by str()) is taken from the implementation",
     "float values are not compared; only their presence",
 ]
 
@@ -130,7 +130,15 @@ def run(h: Harness):
                     [res, linear.dsge_sx(geno.dna, b), first_calls], nontrivial=nontrivial)
         check_rep(h, "DynamicSGE", rep, spec, b, shared, rng, ml_dsge)
 
-        # stack-based: implementation-only
+        # stack-based: the symbol order (sorted by str) is handed to the model
         shared = CountingSource(NativeRandomSource(seedv))
         rep = Stack(g, gene_length=rng.choice([64, 256]))
-        check_rep(h, "Stack", rep, spec, b, shared, rng, None)
+        degenerate = any(g.distanceToTerminal[s] >= 1000000 for s in g.all_nodes)
+        try:
+            order = [gram.ty_sx(b.spec_ty(t)) for t in sorted(g.get_all_mentioned_symbols(), key=str)]
+        except Exception:  # noqa: BLE001
+            order = None
+
+        def ml_stack(h, site, geno, dna, res, nontrivial, first_calls):
+            h.agree(site, ["map_stack", line_spec, order, rep.failures_limit, dna], res, nontrivial=nontrivial)
+        check_rep(h, "Stack", rep, spec, b, shared, rng, ml_stack if (order is not None and not degenerate) else None)
